@@ -486,12 +486,41 @@ func (g *Gen) pattern() []Event {
 		case 0:
 			evs = append(evs, block(1, Event{Ev: "Unjail", V: g.vname()})...)
 		case 1:
-			evs = append(evs, block(1, Event{Ev: "NativeUndelegate", D: g.dname(), V: g.vname(), X: "all"})...)
+			// a native delegator enters and, in a block of its own, leaves completely (BeforeDelegationRemoved, fix F4)
+			nd, nv := g.dname(), g.vname()
+			evs = append(evs, block(1, Event{Ev: "NativeDelegate", D: nd, V: nv, X: pick(g.r, []string{"1000000", "2500000", "10000000"})})...)
+			evs = append(evs, block(1)...)
+			evs = append(evs, block(1, Event{Ev: "NativeUndelegate", D: nd, V: nv, X: "all"})...)
 		default:
 			evs = append(evs, block(1, Event{Ev: "RealSlash", V: g.vname(), F: g.fraction(), Jail: true})...)
 		}
 		evs = append(evs, block(1)...)
 		evs = append(evs, block(1)...)
+		return evs
+	case "gov":
+		// life cycle of an asset: everybody leaves it (unbondings and a redelegation still pending), it is deleted and created
+		// again under the same denom with other parameters; slashes and maturity in between (C16 C07 C02 C03 C12)
+		if !hasPos {
+			return nil
+		}
+		ov := g.otherVal(v)
+		evs := []Event{{Ev: "Redelegate", D: d, Src: v, Dst: ov, A: a, X: frac(bal, 1, 3)}}
+		evs = append(evs, endOfBlock()...)
+		var out []Event
+		for _, p := range g.w.positions(g.w.Ctx) {
+			if p.a == a {
+				out = append(out, Event{Ev: "Undelegate", D: g.w.Name(p.d.String()), V: g.w.Name(p.v.String()), A: a, X: "bal"})
+			}
+		}
+		out = append(out, Event{Ev: "Undelegate", D: d, V: ov, A: a, X: "bal"})
+		evs = append(evs, block(1, out...)...)
+		evs = append(evs, block(1, Event{Ev: "Undelegate", D: d, V: v, A: a, X: "bal"}, Event{Ev: "GovDelete", Signer: "authority", A: a})...)
+		evs = append(evs, block(1, Event{Ev: "SlashHook", V: v, F: g.fraction()},
+			Event{Ev: "GovCreate", Signer: "authority", A: a, Weight: decStr(pick(g.r, []string{"0.5", "2"})), WMin: decStr("0"), WMax: decStr("5"),
+				Take: decStr(pick(g.r, []string{"0", "0.1"})), Rate: decStr("1"), ChgInt: 0})...)
+		evs = append(evs, block(1, Event{Ev: "Delegate", D: g.dname(), V: v, A: a, X: g.amount()}, Event{Ev: "Delegate", D: d, V: ov, A: a, X: g.amount()})...)
+		evs = append(evs, block(U)...)
+		evs = append(evs, block(1, Event{Ev: "Claim", D: d, V: ov, A: a})...)
 		return evs
 	case "takerate":
 		// many short blocks in a row (the clock must keep up), then one long gap
@@ -533,7 +562,9 @@ func (g *Gen) next() Event {
 	// malformed or pointless requests (unknown validator or denom, zero amount, nothing to claim): must be refused without effect
 	opts = append(opts, weighted{2, func() Event {
 		d, v, a, _ := g.position()
-		switch g.r.Intn(8) {
+		switch g.r.Intn(9) {
+		case 8:
+			return Event{Ev: "SlashHook", V: g.vname(), F: pick(g.r, []string{"0", "1000000000000000001", "-1", "2000000000000000000"})}
 		case 0:
 			return Event{Ev: "Delegate", D: d, V: "vx", A: g.aname(), X: g.amount()}
 		case 1:
